@@ -115,6 +115,9 @@ def mc_configs(pid, tier):
                                       ReadSizes={1}, MaxBytes=5, MaxDrops=0, Ops={"listen", "connect", "accept", "write", "read"}),
              ["AWrite", "ARead", "AEgress", "ADeliver"]),
         ]
+        cfgs.append(("mc_simclose", consts(WriteSizes={1}, ReadSizes={1}, MaxBytes=1, MaxAge=0, MaxDrops=1, Writers={"c", "s"},
+                                            Readers=set(), Ops={"listen", "connect", "accept", "write", "shutdown"}),
+                     ["AWrite", "AShutdown", "AEgress", "ADeliver", "ADrop"]))
         if not q:
             cfgs += [
                 ("mc_data_delay", consts(WriteSizes={2}, MaxBytes=2, MaxAge=1, MaxDrops=1), data_need),
@@ -127,6 +130,9 @@ def mc_configs(pid, tier):
         cfgs = [
             ("mc_caps", consts(Mss=2, SendCap=3, RecvCap=1, WriteSizes={3, 1}, ReadSizes={1}, MaxBytes=4, MaxAge=1,
                                MaxDrops=0, Ops={"listen", "connect", "accept", "write", "read"}),
+             ["AWrite", "ARead", "AEgress", "ADeliver"]),
+            ("mc_caps_acceptor", consts(Mss=2, SendCap=3, RecvCap=1, WriteSizes={3, 1}, ReadSizes={1}, MaxBytes=4, MaxAge=1,
+                                        MaxDrops=1, Writers={"s"}, Readers={"c"}, Ops={"listen", "connect", "accept", "write", "read"}),
              ["AWrite", "ARead", "AEgress", "ADeliver"]),
             ("mc_udp", consts(Start="fresh", Ops={"udp"}, UdpSizes={12, 13, 14}, MaxDrops=1), ["AUdp", "AEgress", "ADeliver"]),
         ]
@@ -145,6 +151,9 @@ def mc_configs(pid, tier):
             ("mc_handshake_close", consts(Start="fresh", RetxT=2, RetxMax=2, PremD=1, Ops=HS_OPS, MaxAge=1, MaxDrops=1,
                                           Writers=set(), Readers=set()), hs_need),
         ]
+        cfgs.append(("mc_simclose", consts(WriteSizes={1}, ReadSizes={1}, MaxBytes=1, MaxAge=0, MaxDrops=1, Writers={"c", "s"},
+                                            Readers=set(), Ops={"listen", "connect", "accept", "write", "shutdown", "close"}),
+                     ["AWrite", "AShutdown", "AClose", "AEgress", "ADeliver", "ADrop"]))
         if not q:
             cfgs += [
                 ("mc_two_connects", consts(MaxP=2, Start="listen", RetxT=2, RetxMax=1, PremD=0, Backlog=1,
@@ -172,6 +181,9 @@ def gen_configs(pid, tier):
     if pid == "C16":
         cfgs = [("gen_caps", consts(Mss=2, SendCap=3, RecvCap=1, WriteSizes={3, 1}, ReadSizes={1}, MaxBytes=4, MaxAge=1,
                                     MaxDrops=1, Ops={"listen", "connect", "accept", "write", "read"}), 7 if q else 8, None),
+                ("gen_caps_acceptor", consts(Mss=2, SendCap=3, RecvCap=1, WriteSizes={3, 1}, ReadSizes={1}, MaxBytes=4, MaxAge=1,
+                                             MaxDrops=1, Writers={"s"}, Readers={"c"},
+                                             Ops={"listen", "connect", "accept", "write", "read"}), 6 if q else 7, None),
                 ("gen_udp", consts(Start="fresh", Ops={"udp"}, UdpSizes={12, 13, 14}, MaxDrops=1), 4, None)]
         if not q:
             cfgs.append(("sim_caps", consts(Mss=2, SendCap=2, RecvCap=3, WriteSizes={1, 2, 3}, ReadSizes={1, 2}, MaxBytes=6,
@@ -201,6 +213,8 @@ def random_configs(pid, tier, seed):
                           nconn=3, maxdrops=3, maxage=2, maxbytes=300, wmax=90, rmax=40, steps=400),
                      dict(c=consts(MaxP=2, Mss=1, SendCap=1, RecvCap=1, Backlog=1, RetxT=1, RetxMax=3, PremD=1, PremAge=0),
                           nconn=2, maxdrops=1, maxage=0, maxbytes=6, wmax=2, rmax=2, steps=160)]
+        base.append(dict(c=consts(MaxP=1, Mss=2, SendCap=4, RecvCap=4, Backlog=1), mode="simclose", nconn=1, maxdrops=1, maxage=0,
+                         maxbytes=6, wmax=3, rmax=3, steps=0, closeprob=20))
     elif pid == "C16":
         base = [dict(c=consts(MaxP=2, Mss=4, SendCap=6, RecvCap=5, Backlog=2), nconn=2, maxdrops=1, maxage=1, maxbytes=24, wmax=9, rmax=3, steps=150),
                 dict(c=consts(MaxP=2, Mss=7, SendCap=3, RecvCap=9, Backlog=2), nconn=2, maxdrops=0, maxage=2, maxbytes=24, wmax=9, rmax=9, steps=150)]
@@ -218,10 +232,15 @@ def random_configs(pid, tier, seed):
                           maxbytes=3, wmax=2, rmax=2, steps=400, listenfirst=1),
                      dict(c=consts(MaxP=6, Backlog=1, RetxT=3, RetxMax=3, PremD=1, PremAge=2, SendCap=4, RecvCap=4), nconn=6, maxdrops=1, maxage=2,
                           maxbytes=2, wmax=2, rmax=2, steps=400, listenfirst=0)]
+    if pid == "C13":
+        base.append(dict(c=consts(MaxP=1, Mss=2, SendCap=4, RecvCap=4, Backlog=1, RetxT=2, RetxMax=2, PremD=1), mode="simclose", nconn=1,
+                         maxdrops=1, maxage=0, maxbytes=4, wmax=2, rmax=2, steps=0, closeprob=80, wild=2))
+        base.append(dict(c=consts(MaxP=2, Mss=2, SendCap=4, RecvCap=4, Backlog=2, RetxT=3, RetxMax=2, PremD=0, PremAge=1), mode="lsndrop",
+                         nconn=2, maxdrops=0, maxage=1, maxbytes=2, wmax=2, rmax=2, steps=0, wild=2))
     out = []
     for i, b in enumerate(base):
         b = dict(b)
-        b["runs"] = runs
+        b["runs"] = runs * (3 if b.get("mode") else 1)
         b["seed"] = seed * 131 + i
         out.append(b)
     return out
@@ -300,7 +319,7 @@ def run_index_of_event(runs, d):
 
 
 def stop_index(r):
-    if r.unmatched:
+    if r.unmatched and not r.violated:
         return r.unmatched[0]
     return max(r.depth - 1, 1) if r.depth else 1
 
@@ -318,7 +337,7 @@ def judge_trace(ck, pid, path, c, tag, payload, known_state):
                 f"the PropSpec accepted it (drift, no alarm)")
             return True, 1
         return True, 0
-    if pr.violated in FAMILY_CLAUSES[pid] and not pr.unmatched and d4_listed(ck):
+    if pr.violated in FAMILY_CLAUSES[pid] and d4_listed(ck):
         if not rejected(ir):
             # the code did exactly what the model of the defective algorithm does and a Dev_*
             # predicate of the recorded family held where the PropSpec objects
@@ -347,7 +366,7 @@ def judge_runs(ck, pid, path, c, tag, payload, known_state, limit=6):
         p1 = run_prop_trace(pid, one, c, f"{tag}_o{it}")
         i1 = run_impl_trace(pid, one, c, f"{tag}_o{it}")
         if rejected(p1):
-            if p1.violated in FAMILY_CLAUSES[pid] and not p1.unmatched and not rejected(i1) and d4_listed(ck):
+            if p1.violated in FAMILY_CLAUSES[pid] and not rejected(i1) and d4_listed(ck):
                 known_state["d4"] = True
             else:
                 ck.violation(dict(payload, run_events=[json.loads(x) for x in runs[k]][:400],
@@ -473,8 +492,7 @@ def run(pid, tier, seed, replay=None):
                 + (" (the recorded finding no longer reproduces)" if rp.get("finding") else ""))
             continue
         ir = run_impl_trace(pid, tp, c, f"{pid}_corpus")
-        if (rp.get("finding") == "D4" and d4_listed(ck) and pr.violated in FAMILY_CLAUSES[pid] and not pr.unmatched
-                and not rejected(ir)):
+        if rp.get("finding") == "D4" and d4_listed(ck) and pr.violated in FAMILY_CLAUSES[pid] and not rejected(ir):
             ck.known(rp["finding"], f"{pr.violated}: {rp['what']} (witness corpus/{os.path.basename(cf)})")
             known_state["printed"] = True
             continue
